@@ -650,10 +650,21 @@ class Interp:
             return atom("opaque", "slicepat(%s)" % core(v).r())
         return atom("opaque", "pat:%s" % k)
 
+    def _len_of(self, v):
+        v0 = core(v)
+        if isinstance(v0, CallV) and v0.callee.split("::")[-1] == "len" and len(v0.args) == 1:
+            return core(v0.args[0])
+        return None
+
     def eq_formula(self, a, b):
         ca, cb = self.concrete(a), self.concrete(b)
         if ca is not None and cb is not None:
             return ca == cb
+        # x.len() == 0  <=>  x.is_empty()
+        for x, c in ((a, cb), (b, ca)):
+            lx = self._len_of(x)
+            if lx is not None and c == 0 and isinstance(c, int) and not isinstance(c, bool):
+                return atom("empty", lx.r())
         ra, rb = core(a).r(), core(b).r()
         if ra == rb:
             return True
@@ -1067,7 +1078,9 @@ class Interp:
                     sm = self._some(c0)
                     return BoolV(And(sm, body) if last == "any" else Or(Not(sm), body))
                 body = self.to_formula(self.call_closure(cl, [Sel(c0, "[]")]))
-                return BoolV(atom(last, c0.r(), F.show(body)))
+                a_ = atom(last, c0.r(), F.show(body))
+                self.atom_vals[a_[1]] = (body, Sel(c0, "[]"))
+                return BoolV(a_)
             if last == "le" and len(args) == 2:
                 return BoolV(self._cmp("<=", args[0], args[1]))
             if last == "lt" and len(args) == 2:
@@ -1137,6 +1150,19 @@ class Interp:
         return CallV(inst or callee, args, n, inst)
 
     def _cmp(self, op, l, r):
+        # x.len() > 0, x.len() >= 1, 0 < x.len(), x.len() < 1 ...  <=>  (!)x.is_empty()
+        ll, lr = self._len_of(l), self._len_of(r)
+        cl, cr = self.concrete(l), self.concrete(r)
+        if ll is not None and isinstance(cr, int):
+            if (op, cr) in ((">", 0), (">=", 1)):
+                return Not(atom("empty", ll.r()))
+            if (op, cr) in (("<", 1), ("<=", 0)):
+                return atom("empty", ll.r())
+        if lr is not None and isinstance(cl, int):
+            if (op, cl) in (("<", 0), ("<=", 1)):
+                return Not(atom("empty", lr.r()))
+            if (op, cl) in ((">", 0), (">=", 1)) and False:
+                pass
         a_ = atom("cmp", op, core(l).r(), core(r).r())
         self.atom_vals[a_[1]] = (l, r)
         return a_
